@@ -42,6 +42,10 @@ def make_cases(rng, quick):
                       "high": None if mode == "low" else loc + min(b, 12) * scale, "suffix": sfx, "seed": rng.randint(0, 10**6)})
     cases.append({"kind": "gaussian", "loc": 0.25, "scale": 0.5, "low": None, "high": None, "suffix": "_s", "seed": 1, "sky": True})
     cases.append({"kind": "gaussian", "loc": 60.0, "scale": 1.0, "low": None, "high": None, "suffix": "", "seed": 2, "sky": True})
+    # truncation bounds that are exactly zero (a falsy value is still a bound)
+    cases.append({"kind": "truncated", "loc": 1.0, "scale": 2.0, "low": 0.0, "high": None, "suffix": "", "seed": 7})
+    cases.append({"kind": "truncated", "loc": -1.0, "scale": 1.0, "low": None, "high": 0.0, "suffix": "_a", "seed": 8})
+    cases.append({"kind": "truncated", "loc": 0.5, "scale": 1.5, "low": 0.0, "high": 3.0, "suffix": "", "seed": 9})
     # parameter names that END in the prior's suffix (two-component profiles in a multi-source / multi-band model): the site is still name + suffix
     cases.append({"kind": "gaussian", "name": "r_eff_1", "loc": 3.0, "scale": 0.5, "low": None, "high": None, "suffix": "_1", "seed": 4})
     cases.append({"kind": "uniform", "name": "f_ps", "loc": None, "scale": None, "low": 0.0, "high": 1.0, "suffix": "_ps", "seed": 5})
